@@ -33,8 +33,8 @@ ASSUMPTIONS = [
     "unordered mode: results of a batch are delivered together, batches in completion (callback) order",
 ]
 SHARDS = {"quick": 12, "thorough": 14}
-FLOORS = {"quick": {"promptness_checks": 3000, "calls": 600, "closes": 100, "drops": 60, "overlapping_calls_rejected": 60, "real_promptness_checks": 60, "completions_during_abort": 100, "second_calls_while_first_generator_holds_results": 50, "runs_completed_after_a_refused_call": 30, "closes_during_a_callbacks_pull": 30},
-          "thorough": {"promptness_checks": 60000, "calls": 12000, "closes": 2000, "drops": 1200, "overlapping_calls_rejected": 1200, "real_promptness_checks": 900, "completions_during_abort": 2000, "second_calls_while_first_generator_holds_results": 1000, "runs_completed_after_a_refused_call": 600, "closes_during_a_callbacks_pull": 600}}
+FLOORS = {"quick": {"promptness_checks": 3000, "calls": 600, "closes": 100, "drops": 60, "overlapping_calls_rejected": 60, "real_promptness_checks": 60, "completions_during_abort": 100, "second_calls_while_first_generator_holds_results": 50, "runs_completed_after_a_refused_call": 30, "repeated_overlapping_calls_rejected": 40, "closes_from_another_thread": 30, "runs_completed_after_a_close_from_another_thread": 30, "closes_during_a_callbacks_pull": 30},
+          "thorough": {"promptness_checks": 60000, "calls": 12000, "closes": 2000, "drops": 1200, "overlapping_calls_rejected": 1200, "real_promptness_checks": 900, "completions_during_abort": 2000, "second_calls_while_first_generator_holds_results": 1000, "runs_completed_after_a_refused_call": 600, "repeated_overlapping_calls_rejected": 800, "closes_from_another_thread": 500, "runs_completed_after_a_close_from_another_thread": 500, "closes_during_a_callbacks_pull": 600}}
 
 DUE_WAIT = 5.0
 
@@ -56,6 +56,8 @@ def cases(tier, seed):
         yield dict(kind="hold", i=i)
     for i in range(60 if tier == "quick" else 1200):
         yield dict(kind="closepull", i=i)
+    for i in range(40 if tier == "quick" else 600):
+        yield dict(kind="xclose", i=i)
 
 
 class Puller:
@@ -198,6 +200,13 @@ def run_case(case, ctx):
     # the whole sequence runs in one consumer thread (so that dispatch, pulls and close() happen in the same thread,
     # as in user code); this thread only watches it
     from vlib.scripted_backend import stacks
+    if case["kind"] == "xclose":
+        t = threading.Thread(target=guard(run_xclose, ctx), args=(case, ctx), daemon=True)
+        t.start()
+        t.join(150)
+        if t.is_alive():
+            ctx.violation("nontermination:consumer-blocked", f"close-from-another-thread scenario {case} still blocked after 150 s", dict(stack=stacks().get(t.ident, "")[-1500:]))
+        return
     if case["kind"] == "closepull":
         # the generator is closed while a completion callback is blocked inside its pull from a slow input: nothing may be
         # dispatched afterwards (scenario shared with C09, which watches the input side of it)
@@ -366,6 +375,19 @@ def run_scripted(case, ctx):
                     return False
             except RuntimeError:
                 ctx.count("overlapping_calls_rejected")
+                # ... and so must every further call made while that run is still unfinished
+                for extra in range(rng.choice([0, 1, 1, 2])):
+                    try:
+                        with warnings.catch_warnings():
+                            warnings.simplefilter("ignore")
+                            g3 = p(Src(3, lambda i: delayed(ident)(i, tag + "y"), trace, widen=0))
+                        ctx.violation("overlapping-call-accepted", f"call number {extra + 2} made during one unfinished run (the earlier ones were refused) returned {type(g3).__name__} "
+                                                                   f"instead of raising RuntimeError; {desc}", desc)
+                        drain(be)
+                        return False
+                    except RuntimeError:
+                        ctx.count("overlapping_calls_rejected")
+                        ctx.count("repeated_overlapping_calls_rejected")
                 if rng.random() < 0.6:
                     # the refused call must have left the running one intact: consume it to the end, each result once
                     if not pump(None):
@@ -564,6 +586,79 @@ def run_hold(case, ctx, prefix=""):
                     ctx.violation(prefix + "not-exhausted", f"{what} generator gave {r} after all of its results; {cfg}", cfg)
         drain(be)
         ctx.sig((str(cfg), N1, N2, take_before, first_then))
+
+
+def run_xclose(case, ctx):
+    """the generator is closed from ANOTHER thread than the one that made the call (joblib then cleans up in a detached
+    thread), and the object is called again at once: the new call is either refused (clean-up pending) or runs to the
+    end untouched.  In most cases the detached thread is held back until the new call has been attempted."""
+    from joblib import Parallel, delayed
+    rng = harness.rng_for(ctx.seed, ID, "xclose", case["i"])
+    J, N = rng.choice([2, 3]), rng.randint(3, 8)
+    ra = rng.choice(["generator", "generator", "generator_unordered"])
+    k = rng.choice([0, 0, 1, 2])
+    held = rng.random() < 0.7
+    desc = dict(kind="close-from-another-thread", J=J, N=N, ra=ra, consumed_first=k, cleanup_held=held)
+    hold, gate = threading.Event(), threading.Event()
+
+    def prof(frame, event, arg):
+        if threading.current_thread().name == "GeneratorExitThread" and not hold.is_set():
+            hold.wait(20)
+
+    def gated(i, tag, wait):
+        if wait:
+            gate.wait(30)
+        return (tag, i)
+
+    if held:
+        threading.setprofile(prof)
+    try:
+        p = Parallel(n_jobs=J, backend="threading", return_as=ra, pre_dispatch=rng.choice(["2*n_jobs", "all", 1]))
+        ctx.evaluated()
+        with warnings.catch_warnings():
+            warnings.simplefilter("ignore")
+            g = p(delayed(gated)(i, "a", i >= k) for i in range(N))
+            got = [next(g) for _ in range(k)]
+            if sorted(got) != [("a", i) for i in range(k)]:
+                ctx.violation("wrong-result", f"first {k} results were {got}; {desc}", desc)
+                return
+            th = threading.Thread(target=g.close)
+            th.start()
+            th.join(30)
+            ctx.count("closes_from_another_thread")
+            g2, refused = None, 0
+            t_end = time.monotonic() + 20
+            while g2 is None and time.monotonic() < t_end:
+                try:
+                    g2 = p(delayed(gated)(i, "b", False) for i in range(N))
+                except RuntimeError:
+                    refused += 1
+                    hold.set()          # the clean-up of the closed run may proceed; the object must become usable again
+                    time.sleep(0.01)
+            if refused:
+                ctx.count("calls_refused_while_the_detached_cleanup_was_pending")
+            if g2 is None:
+                ctx.violation("not-reusable-after-close", f"20 s after the generator was closed from another thread the object still refuses calls; {desc}", desc)
+                return
+            time.sleep(rng.choice([0, 0.01, 0.05]))
+            hold.set()
+            time.sleep(rng.choice([0, 0.02, 0.1]))
+            gate.set()
+            try:
+                out = list(g2)
+            except BaseException as e:  # noqa
+                ctx.violation("run-destroyed-by-earlier-close", f"the call made after a close from another thread raised {type(e).__name__}: {str(e)[:150]}; {desc}", desc)
+                return
+            if sorted(out) != [("b", i) for i in range(N)] or (ra == "generator" and out != sorted(out)):
+                ctx.violation("run-destroyed-by-earlier-close", f"the call made after a close from another thread returned {str(out)[:200]}; {desc}", desc)
+                return
+            ctx.count("runs_completed_after_a_close_from_another_thread")
+            ctx.sig(("xclose", J, N, ra, k, held, bool(refused)))
+    finally:
+        hold.set()
+        gate.set()
+        if held:
+            threading.setprofile(None)
 
 
 def expected_next(mode, tag, delivered, completed):
